@@ -11,6 +11,8 @@ import CpModel.AuthPrims
         → `grant TEXT` | `401 TEXT` | `400` | `500 ValueError|IndexError|TypeError`
     seen RAW:TEXT DEC:`E`|TEXT   (Request.process_headers on one value; DEC = what the RFC 2047 decoder returns / raises)
         → `ok TEXT` | `400`
+    wwwauth CHARSETNAME:TEXT REALM:TEXT KEY:TEXT ALG:TEXT QOP:TEXT NOW:int STALE:0|1 → `ok TEXT` | `ValueError`
+    ctor CHARSETNAME:TEXT CODEC HDR:TEXT → `ok` | `ValueError` | `IndexError`      (HttpDigestAuthorization(hdr, …))
   primitive cross-checks:
     md5 HEX → HEX      b64 TEXT → `ok HEX` | `err`      utf8 HEX → `ok TEXT` | `err`     int TEXT → `N` | int
     strip|upper|lower TEXT → TEXT      parse TEXT → `ok PAIRS` | `ValueError` | `IndexError`
@@ -83,6 +85,23 @@ def step (line : String) : String :=
       | some h => "ok " ++ Proto.text h
       | none => "400"
     | _, _ => "bad-op"
+  | ["wwwauth", cn, realm, key, alg, qop, now, stale] =>
+    match Proto.untext? cn, Proto.untext? realm, Proto.untext? key, Proto.untext? alg, Proto.untext? qop, now.toInt? with
+    | some cn, some realm, some key, some alg, some qop, some now =>
+      let P : Prims := { H := md5Hex, b64decode := b64decode, decode := utf8Decode, nfc := id }
+      match wwwAuthenticate P { realm := realm, key := key, store := .plain [], acceptCharset := cn } alg qop now
+          (stale == "1") with
+      | .ok c => "ok " ++ Proto.text c
+      | .error e => showExc e
+    | _, _, _, _, _, _ => "bad-op"
+  | ["ctor", cn, codec, hdr] =>
+    match Proto.untext? cn, parseCodec codec, Proto.untext? hdr with
+    | some _, some dec, some hdr =>
+      let P : Prims := { H := md5Hex, b64decode := b64decode, decode := dec, nfc := id }
+      match parseAuth P hdr with
+      | .ok _ => "ok"
+      | .error e => showExc e
+    | _, _, _ => "bad-op"
   | ["md5", h] =>
     match Proto.unhex? h with
     | some b => Proto.hex (md5 b)
